@@ -390,17 +390,19 @@ def hsPolyOracle (c n : V3 Float) (poly : List (V3 Float)) (out : List String) :
     let edges := cyclicEdges Ps
     if Q.any (fun p => s p > st * 1000) then "fail output-vertex-outside-half-space" else
     if Q.any (fun p => !(Ps.any (eqV3 p) || edges.any fun (a, b) => onSegment a b p sc)) then "fail output-vertex-not-on-polygon" else
-    let kept := Ps.filter fun p => s p ≤ 0
+    -- `keep_point` is evaluated in floating point: vertices within the rounding tolerance of the plane may go either way
+    let kept := Ps.filter fun p => s p < -st
+    let keptLoose := Ps.filter fun p => s p ≤ st
     if kept.any (fun p => !Q.any (eqV3 p)) then "fail kept-vertex-missing" else
     let crossing := edges.filter fun (a, b) => (s a < -st && s b > st) || (s a > st && s b < -st)
     let nearPar := crossing.any fun (a, b) => rabs (N.dot (b.sub a)) ≤ (1 / 1000000000000 : Rat)
     if !nearPar && crossing.any (fun (a, b) => !Q.any fun p => onSegment a b p sc && rabs (s p) ≤ st * 1000) then "fail crossing-point-missing" else
-    let allCross := edges.filter fun (a, b) => (s a ≤ 0) != (s b ≤ 0)
-    if Q.length > kept.length + allCross.length then "fail too-many-output-vertices" else
-    -- cyclic order of the kept vertices is preserved
+    let allCross := edges.filter fun (a, b) => !((s a < -st && s b < -st) || (s a > st && s b > st))
+    if Q.length > keptLoose.length + allCross.length then "fail too-many-output-vertices" else
+    -- cyclic order of the kept vertices is preserved (checked when no vertex is within tolerance of the plane)
     let keptOut := Q.filter fun p => kept.any (eqV3 p)
     let rotations := (List.range (max 1 kept.length)).map fun k => kept.drop k ++ kept.take k
-    if kept.eraseDups.length == kept.length && keptOut.length == kept.length &&
+    if kept.length == keptLoose.length && kept.eraseDups.length == kept.length && keptOut.length == kept.length &&
        !(rotations.any fun r => (r.zip keptOut).all fun (a, b) => eqV3 a b) then "fail kept-vertices-reordered" else "pass"
 
 /-- `p` in triangle `(a,b,c)` (3-D, within tolerance: barycentric coordinates and distance to the plane) -/
@@ -510,6 +512,175 @@ def segSegOracle (a1 b1 a2 b2 : V2 Float) (out : List String) : String :=
        if r != "pass" then r else chk cb hi)
   | _ => "fail unparsable-output"
 
+/-! ### TriMesh split / plane section (oracle-only: `relations.json` kind none) -/
+abbrev Tri := Nat × Nat × Nat
+structure MeshF where
+  oriented : Bool
+  pts : List (V3 Float)
+  tris : List Tri
+def ptris : P (List Tri) := plist (do let a ← pnat; let b ← pnat; let c ← pnat; pure (a, b, c))
+def pmeshIn : P MeshF := do let o ← pbool; let p ← ppts; let t ← ptris; pure ⟨o, p, t⟩
+def pmeshOut : P (List (V3 Float) × List Tri) := do let p ← popts; let t ← ptris; pure (p, t)
+
+instance : Inhabited (V3 Rat) := ⟨⟨0, 0, 0⟩⟩
+
+def triPts (P : Array (V3 Rat)) (t : Tri) : V3 Rat × V3 Rat × V3 Rat := (P[t.1]!, P[t.2.1]!, P[t.2.2]!)
+/-- triangle area (approximate square root, absolute error 2⁻⁴⁰) -/
+def triArea (P : Array (V3 Rat)) (t : Tri) : Rat :=
+  let (a, b, c) := triPts P t
+  Rat.sqrtApprox (((b.sub a).cross (c.sub a)).normSq) / 2
+def signedVol6 (P : Array (V3 Rat)) (tris : List Tri) : Rat :=
+  tris.foldl (fun acc t => let (a, b, c) := triPts P t; acc + a.dot (b.cross c)) 0
+/-- closed + consistently oriented: every directed edge occurs exactly once and so does its reverse -/
+def closedOriented (tris : List Tri) : Bool :=
+  let edges := tris.flatMap fun (a, b, c) => [(a, b), (b, c), (c, a)]
+  edges.all fun (a, b) => a != b && (edges.filter (· == (a, b))).length == 1 && (edges.filter (· == (b, a))).length == 1
+/-- total vector area `Σ (b-a)×(c-a)` (twice the usual one); zero for a closed surface -/
+def vecArea (P : Array (V3 Rat)) (tris : List Tri) : V3 Rat :=
+  tris.foldl (fun acc t => let (a, b, c) := triPts P t; acc.add ((b.sub a).cross (c.sub a))) ⟨0, 0, 0⟩
+def validIdx (n : Nat) (tris : List Tri) : Bool := tris.all fun (a, b, c) => a < n && b < n && c < n
+
+/-- colour of a signed distance: 1 below `-eps`, 2 above `eps`, 0 within; `none` when within the rounding tolerance of `±eps` -/
+def colourOf (s e t : Rat) : Option Nat :=
+  if rabs (rabs s - e) ≤ t then none else if s < -e then some 1 else if s > e then some 2 else some 0
+
+/-- the vertex colour computed by `local_split` / `intersection_with_local_plane`, bit-exactly:
+`dist = pt.coords.dot(axis) - bias; if dist < -eps {1} else if dist > eps {2} else {0}` -/
+def colourFloat (n : V3 Float) (bias eps : Float) (p : V3 Float) : Nat :=
+  let d := p.x * n.x + p.y * n.y + p.z * n.z - bias
+  if d < -eps then 1 else if d > eps then 2 else 0
+
+/-- common part of the split / section oracles: exact signed distances of the input vertices, verdict consistency -/
+def verdictCheck (S : List Rat) (e t : Rat) (verdict : String) : String :=
+  let anyNeg := S.any (· < -e - t); let anyPos := S.any (· > e + t)
+  let noNeg := S.all (· > -e + t); let noPos := S.all (· < e - t)
+  if verdict = "neg" then (if anyPos then "fail negative-but-vertex-beyond-epsilon-on-positive-side" else
+                           if noNeg then "fail negative-but-no-negative-vertex" else "pass")
+  else if verdict = "pos" then (if anyNeg then "fail positive-but-vertex-beyond-epsilon-on-negative-side" else "pass")
+  else (if noNeg then "fail split-but-no-negative-vertex" else if noPos then "fail split-but-no-positive-vertex" else "pass")
+
+/-- oracle for `TriMesh::local_split` / `split`. `sd` = exact signed distance to the plane of a (local) point.
+`Negative`/`Positive`: as coded, `Positive` when no vertex is below `-eps`, else `Negative` when none is above `eps`.
+`Pair(l, r)`: every vertex of `l` has `sd ≤ eps`, of `r` `sd ≥ -eps`; the triangles not lying in the plane conserve area
+(`area*(l) + area*(r) = area*(mesh)`); without caps (mesh not flagged oriented) the in-plane triangles conserve area too
+(an in-plane face must not be emitted into both halves); for a closed oriented input each half is closed and consistently
+oriented with positive volume and `vol(l) + vol(r) = vol(mesh)`. -/
+def splitOracle (m : MeshF) (sd : V3 Rat → Rat) (colF : Option (V3 Float → Nat)) (e : Rat) (scale : Rat) (o : List String) : String :=
+  let P := (m.pts.map q3).toArray
+  if !validIdx P.size m.tris || m.tris.isEmpty then "skip bad-mesh" else
+  let t := tol * scale
+  let S := P.toList.map sd
+  -- a vertex is ambiguous when the colour the code gives it in floating point (replayed bit-exactly when `colF` is given)
+  -- is not the one its exact distance has beyond the rounding tolerance
+  let ambiguous : Bool := match colF with
+    | some cf => (m.pts.zip S).any fun (pf, sx) => let c := cf pf; (c != 0 && rabs sx ≤ e + t) || (c == 0 && rabs sx > e + t)
+    | none => S.any fun sx => (colourOf sx e t).isNone
+  match o with
+  | "panic" :: _ => "fail panic"
+  | ["neg"] => verdictCheck S e t "neg"
+  | ["pos"] => verdictCheck S e t "pos"
+  | "pair" :: rest =>
+    (match run (do let l ← pmeshOut; let r ← pmeshOut; pend; pure (l, r)) rest with
+     | none => "fail unparsable-output"
+     | some ((lp, lt), (rp, rt)) =>
+       if !(lp.all finite3 && rp.all finite3) then "fail nonfinite-output" else
+       let L := (lp.map q3).toArray; let R := (rp.map q3).toArray
+       if !(validIdx L.size lt && validIdx R.size rt) then "fail index-out-of-range" else
+       if lt.isEmpty || rt.isEmpty then "fail empty-half" else
+       let v := verdictCheck S e t "pair"
+       if v != "pass" then v else
+       match L.toList.filter (fun p => sd p > e + t) with
+       | p :: _ => s!"fail negative-half-vertex-on-positive-side sd={sd p}"
+       | [] =>
+       match R.toList.filter (fun p => sd p < -e - t) with
+       | p :: _ => s!"fail positive-half-vertex-on-negative-side sd={sd p}"
+       | [] =>
+       -- the rest needs unambiguous colours
+       if ambiguous then "pass" else
+       let inPlane (A : Array (V3 Rat)) (tr : Tri) : Bool :=
+         let (a, b, c) := triPts A tr
+         rabs (sd a) ≤ e + t && rabs (sd b) ≤ e + t && rabs (sd c) ≤ e + t
+       let areaOf (A : Array (V3 Rat)) (ts : List Tri) : Rat := ts.foldl (fun s tr => s + triArea A tr) 0
+       let mOut := areaOf P (m.tris.filter (!inPlane P ·)); let mIn := areaOf P (m.tris.filter (inPlane P ·))
+       let lOut := areaOf L (lt.filter (!inPlane L ·)); let lIn := areaOf L (lt.filter (inPlane L ·))
+       let rOut := areaOf R (rt.filter (!inPlane R ·)); let rIn := areaOf R (rt.filter (inPlane R ·))
+       let atol := (1 / 100000000 : Rat) * (1 + mOut + mIn)
+       if rabs (lOut + rOut - mOut) > atol then s!"fail area-not-conserved halves={lOut + rOut} mesh={mOut}" else
+       if !m.oriented && rabs (lIn + rIn - mIn) > atol then s!"fail in-plane-area-not-conserved halves={lIn + rIn} mesh={mIn}" else
+       if m.oriented && closedOriented m.tris then
+         -- a closed surface has zero total vector area (triangulation-independent, tolerant to T-junctions of the cap):
+         -- the cap must fill the section loop exactly
+         let va := vecArea L lt; let vb := vecArea R rt
+         -- vertices within `eps` of the plane are kept as they are, so the caps are planar only up to `eps`
+         let vtol := ((1 / 10000000 : Rat) + 8 * e) * (1 + mOut + mIn)
+         if maxAbs3 va > vtol then s!"fail negative-half-not-closed vector-area=({va.x},{va.y},{va.z})" else
+         if maxAbs3 vb > vtol then s!"fail positive-half-not-closed vector-area=({vb.x},{vb.y},{vb.z})" else
+         let vm := signedVol6 P m.tris; let vl := signedVol6 L lt; let vr := signedVol6 R rt
+         let vt := ((1 / 10000000 : Rat) + 8 * e) * (1 + rabs vm + mOut + mIn) * (1 + scale)
+         if vl ≤ -vt || vr ≤ -vt then "fail half-with-negative-volume" else
+         if rabs (vl + vr - vm) > vt then s!"fail volume-not-additive {vl}+{vr} vs {vm}" else "pass"
+       else "pass")
+  | _ => "fail unparsable-output"
+
+def meshScale (m : MeshF) (bias : Rat) : Rat := 1 + rabs bias + (m.pts.map q3).foldl (fun s p => max s (maxAbs3 p)) 0
+
+/-- oracle for `TriMesh::intersection_with_local_plane`: verdicts as for the split; every polyline vertex lies in the plane
+(within `eps`) and on the mesh (a vertex or on an edge); every segment joins two points of one mesh triangle; no segment is
+repeated; for a closed input mesh the polyline is closed and consistently oriented at every crossing point (a polyline vertex
+inside a mesh edge has exactly one incoming and one outgoing segment);
+every mesh edge whose end points are beyond `eps` on opposite sides carries a polyline vertex that is used by a segment. -/
+def sectionOracle (m : MeshF) (sd : V3 Rat → Rat) (colF : Option (V3 Float → Nat)) (e : Rat) (scale : Rat) (o : List String) : String :=
+  let P := (m.pts.map q3).toArray
+  if !validIdx P.size m.tris || m.tris.isEmpty then "skip bad-mesh" else
+  let t := tol * scale
+  let S := P.toList.map sd
+  -- a vertex is ambiguous when the colour the code gives it in floating point (replayed bit-exactly when `colF` is given)
+  -- is not the one its exact distance has beyond the rounding tolerance
+  let ambiguous : Bool := match colF with
+    | some cf => (m.pts.zip S).any fun (pf, sx) => let c := cf pf; (c != 0 && rabs sx ≤ e + t) || (c == 0 && rabs sx > e + t)
+    | none => S.any fun sx => (colourOf sx e t).isNone
+  match o with
+  | "panic" :: _ => "fail panic"
+  | ["hang"] => "fail hang-or-unbounded-allocation"
+  | ["neg"] => verdictCheck S e t "neg"
+  | ["pos"] => verdictCheck S e t "pos"
+  | "poly" :: rest =>
+    (match run (do let p ← popts; let s ← plist (do let a ← pnat; let b ← pnat; pure (a, b)); pend; pure (p, s)) rest with
+     | none => "fail unparsable-output"
+     | some (vp, segs) =>
+       if !(vp.all finite3) then "fail nonfinite-output" else
+       let V := (vp.map q3).toArray
+       let v := verdictCheck S e t "pair"
+       if v != "pass" then v else
+       if segs.any (fun (a, b) => a ≥ V.size || b ≥ V.size || a == b) then "fail bad-segment-index" else
+       if V.toList.any (fun p => rabs (sd p) > e + t * 1000) then "fail polyline-vertex-off-plane" else
+       let edges := m.tris.flatMap fun (a, b, c) => [(a, b), (b, c), (c, a)]
+       let onMesh (p : V3 Rat) : Bool := edges.any fun (a, b) => onSegment P[a]! P[b]! p scale
+       if V.toList.any (fun p => !onMesh p) then "fail polyline-vertex-off-mesh" else
+       let inTri (p : V3 Rat) (tr : Tri) : Bool := let (a, b, c) := triPts P tr; inTriangle3 a b c p scale
+       if segs.any (fun (a, b) => !m.tris.any fun tr => inTri V[a]! tr && inTri V[b]! tr) then "fail segment-not-on-one-triangle" else
+       let und := segs.map fun (a, b) => if a < b then (a, b) else (b, a)
+       if und.eraseDups.length != und.length then "fail repeated-segment" else
+       -- closedness is required of clean sections: closed manifold input without coincident vertices, and no vertex strictly
+       -- inside the `eps` band without being on the plane (the band then has no well-defined section curve)
+       let closedIn := closedOriented m.tris && (P.toList.eraseDups.length == P.size) && S.all (fun s => rabs s ≤ t || rabs s > e)
+       -- degrees are counted on positions (coincident polyline vertices are one point)
+       let rep (k : Nat) : Nat := ((List.range V.size).find? fun j => eqV3 V[j]! V[k]!).getD k
+       let deg (k : Nat) : Nat × Nat := ((segs.filter (rep ·.1 == k)).length, (segs.filter (rep ·.2 == k)).length)
+       if ambiguous then "pass" else
+       -- closed: a polyline point in the interior of a crossed mesh edge (not a mesh vertex) is shared by the two triangles
+       -- of that edge, so exactly two segments meet there, one entering and one leaving (consistent orientation).
+       -- Mesh vertices on the plane may be pinch points, or ends of an edge where the plane merely touches the mesh.
+       let reps := (List.range V.size).filter fun k => rep k == k && !(P.toList.any fun p => eqV3 p V[k]!)
+       if closedIn && reps.any (fun k => (deg k).1 + (deg k).2 != 2) then "fail polyline-not-closed" else
+       if closedIn && reps.any (fun k => (deg k).1 != (deg k).2) then "fail polyline-not-consistently-oriented" else
+       if S.any (fun s => (colourOf s e t).isNone) then "pass" else
+       let crossing := edges.filter fun (a, b) => a < b && ((sd P[a]! < -e && sd P[b]! > e) || (sd P[a]! > e && sd P[b]! < -e))
+       let used (k : Nat) : Bool := segs.any fun (a, b) => a == k || b == k
+       if crossing.any (fun (a, b) => !(List.range V.size).any fun k => used k && onSegment P[a]! P[b]! V[k]! scale && rabs (sd V[k]!) ≤ t * 1000)
+       then "fail crossed-edge-without-polyline-vertex" else "pass")
+  | _ => "fail unparsable-output"
+
 def handler (fn : String) : Option Handler :=
   match fn with
   | "aabb_split" => some {
@@ -566,6 +737,37 @@ def handler (fn : String) : Option Handler :=
                                   | none => "none" | some (ca, cb) => s!"some {fcp ca} {fcp cb}")) a
       oracle := fun a o => match run (do let a1 ← pv2; let b1 ← pv2; let a2 ← pv2; let b2 ← pv2; pure (a1, b1, a2, b2)) a with
         | some (a1, b1, a2, b2) => segSegOracle a1 b1 a2 b2 o
+        | none => "skip bad-args" }
+  | "tm_split" => some {
+      model := fun _ => some "oracle-only"
+      oracle := fun a o => match run (do let m ← pmeshIn; let n ← pv3; let bias ← pf; let eps ← pf; pend; pure (m, n, bias, eps)) a with
+        | some (m, n, bias, eps) =>
+          if !(m.pts.all finite3 && finite3 n && FloatIO.isFinite bias && FloatIO.isFinite eps) then "skip nonfinite-input" else
+          let N := q3 n; let bi := q bias
+          if q eps < 0 then "skip negative-epsilon" else
+          if !nearR N.normSq 1 then "skip non-unit-normal" else
+          splitOracle m (fun p => N.dot p - bi) (some (colourFloat n bias eps)) (q eps) (meshScale m bi) o
+        | none => "skip bad-args" }
+  | "tm_split_pos" => some {
+      model := fun _ => some "oracle-only"
+      oracle := fun a o => match run (do let m ← pmeshIn; let pos ← piso3; let n ← pv3; let bias ← pf; let eps ← pf; pend; pure (m, pos, n, bias, eps)) a with
+        | some (m, pos, n, bias, eps) =>
+          if !(m.pts.all finite3 && finite3 n && FloatIO.isFinite bias && FloatIO.isFinite eps) then "skip nonfinite-input" else
+          let N := q3 n; let bi := q bias; let M := qiso3 pos
+          if q eps < 0 then "skip negative-epsilon" else
+          if !nearR N.normSq 1 then "skip non-unit-normal" else
+          if !nearR (M.qi * M.qi + M.qj * M.qj + M.qk * M.qk + M.qw * M.qw) 1 then "skip non-unit-quaternion" else
+          splitOracle m (fun p => N.dot (M.act p) - bi) none (q eps) (meshScale m bi + maxAbs3 M.t) o
+        | none => "skip bad-args" }
+  | "tm_section" => some {
+      model := fun _ => some "oracle-only"
+      oracle := fun a o => match run (do let m ← pmeshIn; let n ← pv3; let bias ← pf; let eps ← pf; pend; pure (m, n, bias, eps)) a with
+        | some (m, n, bias, eps) =>
+          if !(m.pts.all finite3 && finite3 n && FloatIO.isFinite bias && FloatIO.isFinite eps) then "skip nonfinite-input" else
+          let N := q3 n; let bi := q bias
+          if q eps < 0 then "skip negative-epsilon" else
+          if !nearR N.normSq 1 then "skip non-unit-normal" else
+          sectionOracle m (fun p => N.dot p - bi) (some (colourFloat n bias eps)) (q eps) (meshScale m bi) o
         | none => "skip bad-args" }
   | _ => none
 
